@@ -91,6 +91,71 @@ def candidates(H, year, overrides):
     return out, stats
 
 
+
+REACH = """Fixpoint glookup (n:string) (g:list (string * list string)) : list string :=
+  match g with [] => [] | (k, v) :: r => if String.eqb n k then v else glookup n r end.
+Fixpoint smem2 (n:string) (l:list string) : bool := match l with [] => false | x :: r => String.eqb n x || smem2 n r end.
+(* breadth-first: [front] = nodes reached so far *)
+Fixpoint reach (fuel:nat) (g:list (string * list string)) (front:list string) (dst:string) : bool :=
+  match fuel with
+  | O => false
+  | S k => if smem2 dst front then true
+           else reach k g (fold_left (fun acc n => fold_left (fun a x => if smem2 x a then a else (a ++ [x])%list) (glookup n g) acc) front front) dst
+  end.
+"""
+
+
+def ref_graph(summ, y):
+    """node 'form[:instance].line' -> the lines its body names literally (static references, every syntactic path)"""
+    g = {}
+    for f, info in summ[y]['forms'].items():
+        insts = info.get('valid_instances') or [None]
+        if info.get('valid_instances') is None and info.get('instance0') is not None:
+            continue          # numbered copies (w-2:0 ...): reached only through computed names
+        for inst in insts:
+            own = f if inst is None else '%s:%s' % (f, inst)
+            for l, li in info['lines'].items():
+                tgt = []
+                for (k, parts, ln) in li['refs']:
+                    if k != 'RV' or not all(a == 'lit' for a, b in parts):
+                        continue
+                    name = ''.join(b for a, b in parts)
+                    tgt.append(name if '.' in name else '%s.%s' % (own, name))
+                g['%s.%s' % (own, l)] = sorted(set(tgt))
+    return g
+
+
+def carry_obligations(H, summ, y):
+    """(source node(s), destination node, sentence) from the templates' 'enter here and on Form ..., line N' sentences"""
+    out = []
+    for cls in H['forms'].available_forms[y]:
+        obj = cls(instance=gen_forms.instances_of(cls)[0])
+        if not obj.pdf_file() or cls.form_name not in summ[y]['forms']:
+            continue
+        try:
+            t = pdf_reader.read_template(obj.pdf_file())
+        except Exception:  # noqa
+            continue
+        if t['source'] != 'xfa':
+            continue
+        info = summ[y]['forms'][cls.form_name]
+        for pf in obj.pdf_fields():
+            w = t['fields'].get(pf.pdf_field_name)
+            if not w or '.' in pf.field_name or not isinstance(pf, H['pdf_fields'].TextPDFField):
+                continue
+            lab = pdf_reader.line_label(w['speak'])
+            if lab is None or lab != pf.field_name or pf.field_name not in info['lines']:
+                continue
+            for (dform, dline) in instr.carries(w['speak']):
+                if dform not in summ[y]['forms'] or dline not in summ[y]['forms'][dform]['lines']:
+                    continue                      # destination form not implemented (Schedule 2) or line absent
+                insts = info.get('valid_instances') or [None]
+                for inst in insts:
+                    src = '%s.%s' % (cls.form_name if inst is None else '%s:%s' % (cls.form_name, inst), pf.field_name)
+                    out.append({'src': src, 'dst': '%s.%s' % (dform, dline), 'text': w['speak'][:160]})
+    return out
+
+
 def real_eval(H, obj, line, env):
     field = [f for f in obj.fields() if f.base_name() == line][0]
 
@@ -252,6 +317,40 @@ def run(tier, seed):
         if good:
             txt += ['Goal True. idtac "@@PA C02_%d_%d". Abort.' % (y, good[0]), 'Print Assumptions C02_%d_%d.' % (y, good[0])]
         thm_files.append((y, len(good), ck.write_gen('C02_%d.v' % y, '\n'.join(txt) + '\n')))
+    # carry sentences: the destination line must (statically, through intermediate lines) read the source line - for every copy of a per-person form
+    carry_files = []
+    for y in summ:
+        obs = carry_obligations(H, summ, y)
+        if not obs:
+            continue
+        g = ref_graph(summ, y)
+        gtxt = gen_forms.clist(['(%s, %s)' % (gen_forms.cstr(k), gen_forms.clist([gen_forms.cstr(x) for x in v])) for k, v in sorted(g.items())])
+        txt = ['From Coq Require Import List String Bool.', 'Import ListNotations.', 'Open Scope string_scope.', REACH,
+               'Definition graph : list (string * list string) := %s.' % gtxt]
+        for k, o in enumerate(obs):
+            txt.append('Goal True. idtac "@@CARRY %d". Abort.' % k)
+            txt.append('Eval vm_compute in reach 40 graph [%s] %s.' % (gen_forms.cstr(o['dst']), gen_forms.cstr(o['src'])))
+        carry_files.append((y, obs, ck.write_gen('C02_carry_%d.v' % y, '\n'.join(txt) + '\n')))
+    res_c = ck.coqc_many([f for _, _, f in carry_files], timeout=600)
+    for y, obs, f in carry_files:
+        ok, out = res_c[f]
+        if not ok:
+            ck.oblige('carry-pass:%d' % y, False, out[-300:])
+            continue
+        n_ok = 0
+        for k, o in enumerate(obs):
+            seg = out.split('@@CARRY %d\n' % k, 1)[1].split('@@CARRY', 1)[0] if ('@@CARRY %d\n' % k) in out else ''
+            good_k = '= true' in seg
+            n_ok += good_k
+            ck.count((y, 'carry', o['src'], o['dst']), nontrivial=True)
+            ck.oblige('carry:%d:%s -> %s' % (y, o['src'], o['dst']), good_k, o['text'])
+            if not good_k:
+                ck.violation('C02:%d:carry:%s' % (y, o['src']),
+                             'ty%d: the template of %s says "%s" but %s never reads %s (on any path, directly or through other lines)' % (
+                                 y, o['src'].split('.')[0], o['text'][-90:], o['dst'], o['src']),
+                             {'kind': 'proof-or-correspondence', 'theorem_or_correspondence': 'C02 carry %d %s -> %s' % (y, o['src'], o['dst']),
+                              'sentence': o['text']}, found=False)
+        ck.cov.setdefault('carry_sentences', {})[str(y)] = {'obligations': len(obs), 'hold': n_ok}
     res2 = ck.coqc_many([f for _, _, f in thm_files], timeout=1200)
     for y, n, f in thm_files:
         ok, out = res2[f]
